@@ -69,6 +69,66 @@ def redirect_stdin(stream):
     sys.stdin = old_stdin
 
 
+def early_comment_prefix(argv, default_format, subcommands=(),
+                         guess_from_filename=True):
+    """Comment marker of the output format requested on the command line
+
+    Errors in the command line itself are reported before the command
+    line is fully parsed, but they must be shielded with the comment
+    marker of the output format the user asked for. This is a best
+    effort scan of the options that come before the formula name.
+
+    Parameters
+    ----------
+    argv : list(str)
+        the command line, program name included
+    default_format : str
+        the output format of the tool when nothing is specified
+    subcommands : iterable(str)
+        names of the formula subcommands, where the scan stops
+    guess_from_filename : bool
+        whether the tool guesses the format from the extension of the
+        output file, when no format is explicitly requested
+    """
+    comment_char = {'dimacs': 'c ', 'latex': '% ', 'opb': '* '}
+    explicit = None
+    filename = None
+    tokens = list(argv[1:])
+    i = 0
+    while i < len(tokens):
+        tok = tokens[i]
+        if tok in subcommands or tok == '-T':
+            break
+        nexttok = tokens[i + 1] if i + 1 < len(tokens) else None
+        # long options can be abbreviated
+        optname = tok.split('=', 1)[0]
+        is_latex = tok == '-l' or (len(tok) > 2 and '--latex'.startswith(tok))
+        is_format = optname == '-of' or (len(optname) > len('--output')
+                                         and '--output-format'.startswith(optname))
+        if is_latex:
+            explicit = 'latex'
+        elif is_format and '=' in tok:
+            explicit = tok.split('=', 1)[1]
+        elif is_format and nexttok is not None:
+            explicit = nexttok
+            i += 1
+        elif tok in ('-o', '--output') and nexttok is not None:
+            filename = nexttok
+            i += 1
+        elif tok.startswith('--output='):
+            filename = tok[len('--output='):]
+        i += 1
+    if explicit in comment_char:
+        return comment_char[explicit]
+    if guess_from_filename and explicit is None and filename is not None:
+        ext = os.path.splitext(filename)[-1][1:]
+        if ext == 'tex':
+            return comment_char['latex']
+        if ext == 'opb':
+            return comment_char['opb']
+    return comment_char[default_format]
+
+
 def setup_SIGINT():
     """Register a handler for SIGINT signal
 
